@@ -172,7 +172,7 @@ Proof.
   induction t as [|[ld bd] r IH]; intros a line o H.
   - unfold total_bc in H. cbn in H. lia.
   - cbn [colines_from].
-    assert (E : total_bc ((ld, bd) :: r) = bd + total_bc r) by reflexivity.
+    unfold total_bc, sumZ in *. cbn [map snd fold_right] in H.
     destruct ((a <=? o) && (o <? a + bd)) eqn:C; [eexists; reflexivity|].
     apply IH. lia.
 Qed.
@@ -259,12 +259,9 @@ Proof.
   unfold decode_code. cbv zeta. intros H.
   destruct (to_line_mapping (cfg_v310 c) (co_linetable code) (zlen (co_code code))) as [lm0|] eqn:M;
     [|discriminate].
-  dmatch H. dmatch H. dmatch H. dmatch H. dmatch H. dmatch H.
-  match type of H with
-  | match ?X with _ => _ end = _ => destruct X as [[[blocks addl] lm']|] eqn:B; [|discriminate]
-  end.
-  dmatch H. dmatch H. inversion H; subst d. cbn [cd_blocks].
-  do 5 eexists. split; [reflexivity|exact B].
+  repeat dmatch H. inversion H; subst d. cbn [cd_blocks].
+  match goal with B : bytes_to_blocks _ _ _ _ _ _ _ _ _ _ _ = OK _ |- _ => rename B into B' end.
+  do 5 eexists. split; [reflexivity|exact B'].
 Qed.
 
 Section View.
